@@ -19,12 +19,14 @@
 pub mod common;
 
 #[cfg(all(kani, feature = "c16"))]
-pub mod c16;
-#[cfg(all(kani, feature = "c16"))]
 mod gen_c16;
 #[cfg(all(kani, feature = "c16"))]
 mod gen_swizzle;
 
+#[cfg(all(kani, any(feature = "c16", feature = "c19")))]
+pub mod c16;
+#[cfg(all(kani, feature = "c19"))]
+pub mod c19;
 #[cfg(all(kani, feature = "c19"))]
 mod gen_cast;
 
